@@ -398,7 +398,7 @@ fn run_item<S: Scenario>(
     // host objects are never freed within one Env: rebuild the world after many calls
     let stale = cache
         .get(&item.cfg)
-        .map(|(ctx, _, _)| s.world(ctx).calls.get() > 400_000)
+        .map(|(ctx, _, _)| s.world(ctx).calls.get() > 100_000)
         .unwrap_or(false);
     if stale {
         cache.remove(&item.cfg);
